@@ -5,6 +5,7 @@ import (
 	"fmt"
 	"os"
 	"path/filepath"
+	"regexp"
 	"sort"
 	"strings"
 )
@@ -58,6 +59,7 @@ type KnownFinding struct {
 	Property   string `json:"property"`
 	Rule       string `json:"rule"`
 	Key        string `json:"key"`
+	KeyRe      string `json:"key_re,omitempty"` // optional: the same construct under another name of the enclosing function (anchored regular expression)
 	What       string `json:"what"`
 	Reproducer string `json:"reproducer,omitempty"`
 	PinnedBy   string `json:"pinned_by,omitempty"`
@@ -87,8 +89,16 @@ func loadKnown(path string) (*KnownFile, error) {
 func (kf *KnownFile) match(prop string, ob *Ob) *KnownFinding {
 	for i := range kf.Findings {
 		f := &kf.Findings[i]
-		if f.Rule == ob.Rule && f.Key == ob.Key && (f.Property == prop || f.Property == "*") {
+		if f.Rule != ob.Rule || !(f.Property == prop || f.Property == "*") {
+			continue
+		}
+		if f.Key == ob.Key {
 			return f
+		}
+		if f.KeyRe != "" {
+			if re, err := regexp.Compile(f.KeyRe); err == nil && re.MatchString(ob.Key) {
+				return f
+			}
 		}
 	}
 	return nil
